@@ -107,7 +107,7 @@ def build_repo(rng, root, ncommits):
 
 
 def build_unequal_merge(rng, root, side_len, main_len, merge_into_side):
-    """A --- B.. ----------- M     two branches of different length merged; versions will be recorded at
+    r"""A --- B.. ----------- M     two branches of different length merged; versions will be recorded at
         \                  /      both tips, so 'fewest separating commits' and any first-parent /
          s1 --- s2 --- s3          generation-count shortcut disagree"""
     m = GitModel()
